@@ -368,6 +368,24 @@ def toBytes : SecretArg → Option Bytes
   | .bytes b => some b
   | .other => none
 
+/-- **`get_serializer`: `if secret: set_signer(HashSigner(secret, digestmod))`** — Python truthiness: no secret, the empty
+`str` and the empty `bytes` (`os.environ.get("CACHE_SECRET", "")`) all mean NO signer; the pickler is chosen by the same test
+(`_get_pickler(pickle_type or NULL, bool(secret))`: the NonPickler is replaced by pickle only when there IS a signer, which
+needs bytes).  The two decisions must be made by one test: a signer on top of the NonPickler cannot sign anything but bytes
+(`sign` returns `none`: TypeError).  A non-bytes object (`.other`) is taken as truthy. -/
+def signerOf (secret : Option SecretArg) (d : Digest) : Option Signer :=
+  match secret with
+  | none => none
+  | some a =>
+    match toBytes a with
+    | some [] => none
+    | some b => some { secret := b, digest := d }
+    | none => some { secret := [], digest := d }
+
+/-- `_get_pickler(pickle_type or NULL, bool(secret))`: does the NonPickler stay?  (`asked` = a real pickler was asked for) -/
+def nonPicklerStays (secret : Option SecretArg) (d : Digest) (asked : Bool) : Bool :=
+  !asked && (signerOf secret d).isNone
+
 /-- NOT what `HashSigner.check_sign` does, but what a verifier holding SEVERAL secrets would do (a "rotation list", e.g. the
 configured text split at `,`): accept when the signature matches under ANY of them.  Kept in the model only to state what
 that would mean (`Props.C10.any_secret_verifier_accepts_foreign_secret`): `HashSigner` holds ONE secret, the whole
